@@ -441,15 +441,16 @@ def rule_XDT(ctx):
         narrowed = {}          # foreign name -> (kind, branch If)
         for x in own_walk(f.node):
             if isinstance(x, ast.If):
-                for c in ast.walk(x.test):
+                pt, pbody, _ = G.pos_if(x)
+                for c in ast.walk(pt):
                     if isinstance(c, ast.Call) and isinstance(c.func, ast.Name) and c.func.id == 'isinstance' and len(c.args) == 2 \
                             and isinstance(c.args[0], ast.Name) and c.args[0].id != 'self':
                         k = ast.unparse(c.args[1])
                         if k in ('Array', 'array.array'):
-                            narrowed.setdefault((c.args[0].id, k), []).append(x)
+                            narrowed.setdefault((c.args[0].id, k), []).append((x, pt, pbody))
         for (p, kind), branches in narrowed.items():
-            for br in branches:
-                body_nodes = [y for b in br.body for y in ast.walk(b)]
+            for (br, br_test, br_body) in branches:
+                body_nodes = [y for b in br_body for y in ast.walk(b)]
                 sites = []
                 for y in body_nodes:
                     if kind == 'Array' and isinstance(y, ast.Attribute) and y.attr == 'data' and isinstance(y.value, ast.Name) and y.value.id == p \
@@ -474,8 +475,8 @@ def rule_XDT(ctx):
                             if any(k.arg == 'scale' and isinstance(k.value, ast.Constant) and k.value.value is None for k in y.value.keywords):
                                 none_scale = True
                     fields = set()
-                    tests = [t for t in ast.walk(br.test)]
-                    for b in br.body:
+                    tests = [t for t in ast.walk(br_test)]
+                    for b in br_body:
                         if getattr(b, 'lineno', 0) >= site.lineno and not any(site is z for z in ast.walk(b)):
                             break
                         tests += [t for t in ast.walk(b) if getattr(t, 'lineno', 0) <= site.lineno]
